@@ -310,7 +310,8 @@ def main():
             print("ERROR: extra stage build failed: %s" % e); finish(2)
 
     # 5. search when a proof obligation broke and no failing input is known yet
-    if proof_broken and not found and not extra_v and driver_ok and hasattr(mod, "gen_ops"):
+    extra_new = [e for e in extra_v if not is_known(e[0])]          # listed known findings must not mask a broken proof obligation
+    if proof_broken and not found and not extra_new and driver_ok and hasattr(mod, "gen_ops"):
         log("proof obligation broken; searching for a failing input")
         budget = time.time() + (240 if tier == "quick" else 1200); s = 0
         while time.time() < budget and not found:
@@ -336,7 +337,7 @@ def main():
     for desc, path in extra_v:
         if not is_known(desc):
             violations.append(desc); print("VIOLATION property=%s replay=%s" % (pid, path)); code = 1
-    if proof_broken and code == 0 and not found and not extra_v:
+    if proof_broken and code == 0 and not found and not extra_new:
         n = len(__import__("glob").glob(os.path.join(vlib.VERIF, "replay", pid + "-*.txt"))) + 1
         path = os.path.join(vlib.VERIF, "replay", "%s-%d.txt" % (pid, n))
         os.makedirs(os.path.dirname(path), exist_ok=True)
